@@ -18,6 +18,51 @@
 #include "main.h"
 #include "pitch_est_defines.h"
 
+/* ------------------------------------------------------------------ instrumented silk_NLSF2A
+   silk_NLSF2A is compiled HERE from the repo's own silk/NLSF2A.c (so every other caller inside the library,
+   e.g. silk_decode_parameters, links against this copy) with its calls of silk_LPC_fit, silk_bwexpander_32 and
+   silk_LPC_inverse_pred_gain_c routed through wrappers.  The wrappers call the real library functions and
+   count every `(opus_int16)` cast whose operand did not fit (re-computing the operand in 64 bits):
+   the casts of LPC_fit.c:74/79 and of the re-quantisation NLSF2A.c:136.  The count is printed as `tr=`
+   and compared with the model's count (theorem lpc_fit_int16: always 0). */
+static long verif_trunc = 0;
+static opus_int32 verif_snap[SILK_MAX_ORDER_LPC];
+static int verif_snap_n = -1;
+static long long vrr64(long long a, int s) { return s == 1 ? (a >> 1) + (a & 1) : ((a >> (s - 1)) + 1) >> 1; }
+static void verif_LPC_fit(opus_int16 *a_QOUT, opus_int32 *a_QIN, const opus_int QOUT, const opus_int QIN, const opus_int d);
+static void verif_bwexpander_32(opus_int32 *ar, const opus_int d, opus_int32 chirp_Q16);
+static opus_int32 verif_inv_pred_gain(const opus_int16 *A_Q12, const opus_int order);
+#define silk_LPC_fit verif_LPC_fit
+#define silk_bwexpander_32 verif_bwexpander_32
+#define silk_LPC_inverse_pred_gain_c verif_inv_pred_gain
+#include "NLSF2A.c"
+#undef silk_LPC_fit
+#undef silk_bwexpander_32
+#undef silk_LPC_inverse_pred_gain_c
+#undef QA
+static void verif_LPC_fit(opus_int16 *a_QOUT, opus_int32 *a_QIN, const opus_int QOUT, const opus_int QIN, const opus_int d)
+{
+   int k;
+   verif_snap_n = -1;
+   silk_LPC_fit(a_QOUT, a_QIN, QOUT, QIN, d);
+   /* after the call a_QIN holds the values the casts were applied to (clip branch: a_QOUT << (QIN-QOUT)) */
+   for (k = 0; k < d; k++) if ((long long)a_QOUT[k] != vrr64(a_QIN[k], QIN - QOUT)) verif_trunc++;
+}
+static void verif_bwexpander_32(opus_int32 *ar, const opus_int d, opus_int32 chirp_Q16)
+{
+   silk_bwexpander_32(ar, d, chirp_Q16);
+   if (d <= SILK_MAX_ORDER_LPC) { memcpy(verif_snap, ar, d * sizeof(opus_int32)); verif_snap_n = d; }
+}
+static opus_int32 verif_inv_pred_gain(const opus_int16 *A_Q12, const opus_int order)
+{
+   if (verif_snap_n == order) {          /* A_Q12 was just re-quantised from verif_snap (NLSF2A.c:135-137) */
+      int k;
+      for (k = 0; k < order; k++) if ((long long)A_Q12[k] != vrr64(verif_snap[k], 17 - 12)) verif_trunc++;
+      verif_snap_n = -1;
+   }
+   return silk_LPC_inverse_pred_gain_c(A_Q12, order);
+}
+
 static void plist16(const opus_int16 *p, int n) { int i; if (!n) printf("-"); for (i = 0; i < n; i++) printf("%s%d", i ? "," : "", (int)p[i]); }
 static void plist8(const opus_int8 *p, int n) { int i; if (!n) printf("-"); for (i = 0; i < n; i++) printf("%s%d", i ? "," : "", (int)p[i]); }
 static void plist32(const opus_int32 *p, int n) { int i; if (!n) printf("-"); for (i = 0; i < n; i++) printf("%s%d", i ? "," : "", (int)p[i]); }
@@ -72,8 +117,9 @@ static void do_nlsf2a(const opus_int16 *nlsf, int d)
    opus_int16 *in = (opus_int16 *)xdup(nlsf, d * sizeof(opus_int16));
    opus_int16 *a = (opus_int16 *)malloc(d * sizeof(opus_int16));
    printf("I silkparams nlsf2a "); plist16(in, d); printf("\n"); fflush(stdout);
+   verif_trunc = 0;
    silk_NLSF2A(a, in, d, 0);
-   printf("O OK a="); plist16(a, d); printf(" ig=%d\n", (int)silk_LPC_inverse_pred_gain(a, d, 0));
+   printf("O OK a="); plist16(a, d); printf(" ig=%d tr=%ld\n", (int)silk_LPC_inverse_pred_gain(a, d, 0), verif_trunc);
    free(in); free(a);
 }
 
@@ -90,8 +136,9 @@ static void do_lpcfit(const opus_int32 *a32, int d)
    opus_int32 *in = (opus_int32 *)xdup(a32, d * sizeof(opus_int32));
    opus_int16 *q = (opus_int16 *)malloc(d * sizeof(opus_int16));
    printf("I silkparams lpcfit "); plist32(in, d); printf("\n"); fflush(stdout);
-   silk_LPC_fit(q, in, 12, 17, d);
-   printf("O OK q="); plist16(q, d); printf(" a="); plist32(in, d); printf("\n");
+   verif_trunc = 0;
+   verif_LPC_fit(q, in, 12, 17, d);
+   printf("O OK q="); plist16(q, d); printf(" a="); plist32(in, d); printf(" tr=%ld\n", verif_trunc);
    free(in); free(q);
 }
 
